@@ -75,7 +75,7 @@ class Node:
         return best
 
 
-def run_impl(sc):
+def run_impl(sc, sendlog=None):
     na, nb, events, decisions, fault_end, latency, t_end, rev, fuel = sc
     nodes = [Node(0, na, rev), Node(1, nb, rev)]
     net = []            # (arrive, to, from_addr, mc, data) in sending order
@@ -110,6 +110,8 @@ def run_impl(sc):
             for n, sends in zip(nodes, out):
                 other = nodes[1 - n.index]
                 for dest, data in sends:
+                    if sendlog is not None:
+                        sendlog.append((t, n.index, dest is None, data))
                     if t < fault_end and decs:
                         lats = decs.pop(0)
                     else:
